@@ -46,8 +46,9 @@ def mutant_list(C):
         out.append(dict(name='seeded/' + os.path.basename(d), patch=os.path.join(d, 'patch.diff'), property=m['check_property'], flavours=m.get('flavours'), seconds=m.get('seconds', 12)))
     return out
 
-def mutants(args, C):
-    todo = [m for m in mutant_list(C) if not args or any(a in m['name'] for a in args)]
+def mutants(args, C, todo=None):
+    if todo is None:
+        todo = [m for m in mutant_list(C) if not args or any(a in m['name'] for a in args)]
     missed = []
     for m in todo:
         scratch = tempfile.mkdtemp(prefix='verif-mutant-', dir='/tmp')
@@ -82,4 +83,8 @@ def main(args, C):
         return determinism(args[1:], C)
     if args[0] == 'mutants':
         return mutants(args[1:], C)
+    if args[0] == 'patch':   # selftest patch <PROP> <patch.diff> [seconds] [flavours]: try one change on a scratch copy
+        m = dict(name=args[2], patch=os.path.abspath(args[2]), property=args[1], seconds=int(args[3]) if len(args) > 3 else 16,
+                 flavours=args[4].split(',') if len(args) > 4 else None)
+        return mutants([], C, [m])
     print(__doc__); return 2
